@@ -50,6 +50,8 @@ def match_known(known: list[dict], v: dict) -> dict | None:
             continue
         if "locus" in m and m["locus"] != v.get("locus", ""):
             continue
+        if "detail_re" in m and not re.search(m["detail_re"], v.get("detail", "")):
+            continue
         return e
     return None
 
@@ -126,14 +128,16 @@ class Driver:
         budget = float(os.environ.get("VERIF_BUDGET_S", plan.get("budget_s", 60)))
         deadline = self.t0 + budget
         hs = plan.get("hashseeds") or poolmod.default_hashseeds(poolmod.n_workers())
-        with poolmod.Pool(hs) as pool:
+        with poolmod.Pool(hs, per_worker_env=plan.get("per_worker_env")) as pool:
             self.pool = pool
             if hasattr(c, "coordinate"):
                 c.coordinate(self, pool, plan, deadline)
             else:
                 jobs = self._seed_jobs(plan)
                 pool.run(jobs, self.on_result, deadline=deadline, stop=lambda: len(self.viol_by_class) >= 12)
-            rc = self._finish(pool, plan)
+            rc = self._finish(self.pool, plan)
+            if self.pool is not pool:
+                self.pool.close()
         return rc
 
     def _seed_jobs(self, plan: dict):
@@ -189,7 +193,7 @@ class Driver:
         for eid, n in sorted(self.known_hits.items()):
             e = self.known_entry[eid]
             lines.append(f"KNOWN-FINDING: property={c.PROP} {e['what']} (id={eid}, hit {n}x this run)")
-        replay_dir = os.path.join(VERIF, "replays", c.PROP)
+        replay_dir = os.path.join(os.environ.get("VERIF_REPLAY_DIR") or os.path.join(VERIF, "replays"), c.PROP)
         for cls, rec in sorted(self.viol_by_class.items()):
             v, spec = rec["violation"], rec["spec"]
             os.makedirs(replay_dir, exist_ok=True)
@@ -203,7 +207,10 @@ class Driver:
                 rc = 1
                 continue
             size0 = c.spec_size(spec) if hasattr(c, "spec_size") else None
-            mspec, steps = self.minimise(pool, spec, cls, budget_s=float(plan.get("minimise_s", 45)))
+            if hasattr(c, "minimise"):
+                mspec, steps = c.minimise(self, spec, cls, float(plan.get("minimise_s", 45)))
+            else:
+                mspec, steps = self.minimise(pool, spec, cls, budget_s=float(plan.get("minimise_s", 45)))
             res = self.run_spec(pool, [mspec])[0]
             vv = [x for x in (res or {}).get("violations", []) if vclass(x) == cls]
             if not vv:
@@ -298,8 +305,9 @@ class Driver:
             "wall_s": round(wall, 2),
             "violations": len(self.reported),
         }
-        os.makedirs(os.path.join(VERIF, "evidence"), exist_ok=True)
-        path = os.path.join(VERIF, "evidence", f"{c.PROP}.json")
+        evdir = os.environ.get("VERIF_EVIDENCE_DIR") or os.path.join(VERIF, "evidence")
+        os.makedirs(evdir, exist_ok=True)
+        path = os.path.join(evdir, f"{c.PROP}.json")
         tmp = path + ".tmp"
         with open(tmp, "w") as f:
             json.dump(ev, f, indent=1, sort_keys=True, default=str)
